@@ -69,3 +69,26 @@ func Lemma_Fixed64Inverse(s []byte, v uint64) {
 	ensures(uint64(s[0])+uint64(s[1])<<8+uint64(s[2])<<16+uint64(s[3])<<24+
 		uint64(s[4])<<32+uint64(s[5])<<40+uint64(s[6])<<48+uint64(s[7])<<56 == v)
 }
+
+// Lemma_BytesLenPrefix: the length-delimited grammar looks at nothing beyond the value it finds.
+//
+// @ props C47
+func Lemma_BytesLenPrefix(b []byte) {
+	requires(specBytesLen(b) >= 0)
+	ensures(specBytesLen(b) <= len(b))
+	ensures(specBytesLen(b[:specBytesLen(b)]) == specBytesLen(b))
+	ensures(specBytesLen(b[:specBytesLen(b):specBytesLen(b)]) == specBytesLen(b))
+	// it starts with a well-formed varint
+	ensures(0 < specVarintLen(b) && specVarintLen(b) <= specBytesLen(b))
+}
+
+// Lemma_BytesLenEncoded: a buffer that starts with the shortest varint of v and holds exactly v
+// more bytes is one complete length-delimited value.
+//
+// @ props C47
+func Lemma_BytesLenEncoded(s []byte, v uint64) {
+	requires(len(s) >= specVlen(v) && specVarintAt(s, 0, v))
+	requires(uint64(len(s)-specVlen(v)) == v)
+	ensures(specBytesLen(s) == len(s))
+	ensures(specVarintLen(s) == specVlen(v))
+}
